@@ -765,7 +765,8 @@ class RChild(Ret):
         if self.mode == "owned":
             return "LeafImp::new(h)"
         if self.mode == "ref":
-            return "&this.ch_ref"
+            # (methods lend different leaves, so that two children alive together can be told apart)
+            return "&this." + getattr(self, "field", "ch_ref")
         return "&mut this.ch_mut"
 
     def compare(self):
@@ -1028,6 +1029,10 @@ class Trait:
                 f.add("self-return")
             if getattr(m, "doc", None):
                 f.add("doc-text-mentions-attribute-names")
+            if isinstance(m.ret, RChild) and m.ret.mode == "ref" and m.recv == "ref":
+                same = [x for x in self.methods if isinstance(x.ret, RChild) and x.ret.mode == "ref" and x.recv == "ref" and not getattr(x, "skip", False) and x.ret.group == m.ret.group]
+                if len(same) >= 2 and same[0].ret.field != same[1].ret.field:
+                    f.add("two-borrowed-children")
             if getattr(m.ret, "nobound", False):
                 f.add("assoc-without-lifetime-bound" + ("-in-result" if isinstance(m.ret, RResChild) else ""))
             if getattr(m.ret, "static_return", False):
@@ -1066,6 +1071,7 @@ def gen_trait(rng, name, prefix, max_methods=5, allow_child=True, tindex=0):
     methods = []
     used_assoc = {}
     have_own = False
+    n_ref_lenders = 0
     for j in range(n):
         r = rng.random()
         if r < 0.40:
@@ -1114,6 +1120,10 @@ def gen_trait(rng, name, prefix, max_methods=5, allow_child=True, tindex=0):
                 ret = RVal("u32")
             else:
                 used_assoc[ret.assoc[0]] = ret.assoc
+        if isinstance(ret, RChild) and ret.mode == "ref":
+            # successive lending methods lend different leaves
+            ret.field = "ch_ref2" if n_ref_lenders % 2 else "ch_ref"
+            n_ref_lenders += 1
         m = Method(j, f"{prefix}_{j}", recv, args, ret,
                    extern_c=rng.random() < 0.12, unsafe=rng.random() < 0.08)
         m.gid = tindex * 100 + j
